@@ -1,7 +1,8 @@
 SPEC = {
     'module': 'EV.Props.C10',
     'theorems': ['EV.System.C10_fresh', 'EV.System.C10_invariant', 'EV.System.C10_accepted_reads',
-                 'EV.System.C10_counterexample_stale_read'],
+                 'EV.System.C10_counterexample_stale_read',
+                 'EV.SyncLoopT.C07carrier_loop', 'EV.SyncLoopT.C07carrier_consecutive', 'EV.SyncLoopT.C07carrier_reads'],
     'suites': ['notifcache', 'system'],
     'entry': {'system': 'run_queries'},
     'design_ref': 'DESIGN.md §6 C10, §11',
